@@ -928,8 +928,8 @@ def correspond(ctx):
                         ctx.fail(f'C16/{cl}', f'{name} on {vtag}: {det}', replay_input(name, q, r, kw, vm))
                     if vm is mol and (not ctx.quick or hit[name] <= 8):
                         ctx.dist('numbering-independence-checked')
-                        for cl, det in numbering_clauses(q, r, vm, kw, rng, rounds=1):
-                            ctx.fail(f'C16/{cl}', f'{name} on {vtag}: {det}', replay_input(name, q, r, kw, vm))
+                        for cl, det, *extra in numbering_clauses(q, r, vm, kw, rng, rounds=1):
+                            ctx.fail(f'C16/{cl}', f'{name} on {vtag}: {det}', extra[0] if extra else replay_input(name, q, r, kw, vm))
     for name, *_ in synth:
         ctx.dist('template-hit:' + name, hit.get(name, 0))
         if not hit.get(name):
@@ -1056,7 +1056,7 @@ def transform_failures(inp, numbering=True):
 def probe_transform(inp):
     bad = transform_failures(inp)
     if bad:
-        return True, '; '.join(f'{c}: {d}' for c, d in bad[:4])
+        return True, '; '.join(f'{b[0]}: {b[1]}' for b in bad[:4])
     return False, 'all clauses hold'
 
 
@@ -1126,7 +1126,10 @@ def _numbering_clauses(q, r, mol, kw=None, rng=None, rounds=2):
                         cl = 'numbering-independence/automorphism-filter'
                 except Exception:
                     pass
-            bad.append((cl, f'products {base} vs {other} after renumbering {wire.mol_to_ints(m2)}'))
+            bad.append((cl, f'products {base} vs {other} after renumbering {wire.mol_to_ints(m2)}',
+                        {'kind': 'numbering-pair', 'pattern': str(q), 'replacement': repl_text(r),
+                         'kwargs': dict(kw),
+                         'wire_a': wire.mol_to_ints(mol), 'wire_b': wire.mol_to_ints(m2)}))
     return bad
 
 
@@ -1154,11 +1157,11 @@ def search(ctx):
     seen = set()
 
     def report(bad, what_prefix, inp):
-        for cl, det in bad:
+        for cl, det, *extra in bad:
             sig = f'C16/{cl}'
             if sig not in seen:
                 seen.add(sig)
-                ctx.fail(sig, f'{what_prefix}: {det}', inp)
+                ctx.fail(sig, f'{what_prefix}: {det}', extra[0] if extra else inp)
 
     # 1. the disagreeing cases themselves
     templates = {}
